@@ -21,6 +21,9 @@
 //!                 0x10000) whose bytes are a function of the address: an L-byte instruction (L-3 segment prefixes +
 //!                 mov rax,[rbx]; L=1 ret; L=2 push [rax]) starts at ip, nop elsewhere
 //!                                         -> I <1 iff the crashing instruction was decoded>
+//!  U <mem64 0|1> <addr> <n> (base len)*n   amd64/Linux crash at `jmp [rbx]` (ff 23 at 0x400000), rbx = addr; regions after the
+//!                 stack (64 bytes at 0x10000) and the 2-byte code region; every byte is a function of its address: ff 23 at 0x400000, (a * 131 + 7) mod 256 elsewhere
+//!                                         -> U <the u64 the instruction pointer is updated to> | U -
 //!  A <hex of a function name>            -> A <cc> <argument names hex,...> | A -   (x86 argument recovery, unstable_all)
 //! A panic anywhere inside a case is answered `P;;<message>` by vharness::for_each_case.
 #[path = "../dumpspec.rs"]
@@ -524,6 +527,45 @@ fn run_fetch(t: &mut Toks) -> String {
     format!("I {}", decoded as u8)
 }
 
+/// the bytes of every region of a U case are this function of the address: `jmp [rbx]` at 0x400000, a pattern elsewhere
+pub fn pattern_byte(a: u64) -> u8 {
+    match a {
+        0x400000 => 0xff,
+        0x400001 => 0x23,
+        _ => (a.wrapping_mul(131).wrapping_add(7) & 0xff) as u8,
+    }
+}
+
+fn run_read_u64(t: &mut Toks) -> String {
+    let mem64 = t.u64() == 1;
+    let addr = t.u64();
+    let n = t.usize();
+    let mut spec = Spec { cpu: "amd64".into(), os: "linux".into(), ..Default::default() };
+    let r: Vec<(String, u64)> = vec![("rip".into(), 0x400000), ("rsp".into(), 0x10020), ("rbx".into(), addr)];
+    spec.threads.push(ThreadSpec { id: 1, stack_base: 0x10000, stack: (0..64u64).map(|i| pattern_byte(0x10000 + i)).collect(), regs: Some(r.clone()) });
+    spec.exc = Some(ExcSpec { tid: 1, code: 11, flags: 0, addr: 0, nparams: 0, info0: 0, info1: 0, regs: Some(r) });
+    spec.regions.push((0x400000, vec![0xff, 0x23]));
+    for _ in 0..n {
+        let (b, len) = (t.u64(), t.u64());
+        spec.regions.push((b, (0..len).map(|i| pattern_byte(b.wrapping_add(i))).collect()));
+    }
+    if mem64 {
+        spec.extra.insert("mem64".into(), "1".into());
+    }
+    let state = state_of(&spec);
+    render(&state);
+    let ei = state.exception_info.as_ref().expect("exception info");
+    if ei.instruction_str.is_none() {
+        return "U -".into(); // a generated region cut the instruction off (the model predicts that too)
+    }
+    // the enum is not nameable from outside the crate: read the address out of its Debug rendering
+    let dbg = format!("{:?}", ei.instruction_pointer_update);
+    match dbg.strip_prefix("Some(Update { address_info: MemoryAddressInfo { address: ") {
+        Some(rest) => format!("U {}", rest.split(',').next().unwrap()),
+        None => "U -".into(),
+    }
+}
+
 /// A <hex of a function name (UTF-8)>: x86 / Windows thread inside a module whose symbol file names the
 /// covering FUNC so; unstable_all. -> A <cc 0 cdecl|1 thiscall> <arg names hex, comma separated> | A -
 fn run_args(t: &mut Toks) -> String {
@@ -569,6 +611,7 @@ fn run(line: &str) -> String {
         "J" => run_json_modules(&mut t),
         "A" => run_args(&mut t),
         "I" => run_fetch(&mut t),
+        "U" => run_read_u64(&mut t),
         x => panic!("kind {}", x),
     }
 }
